@@ -180,3 +180,29 @@ PROPS['C16'] = {
     'assumptions': K_TRUST,
     'outside_claim': ['agreement of the four v1 entry points: Engine M (when built)', 'owned copies of headers longer than 48 bytes'],
 }
+
+# ---------------------------------------------------------------- Engine M (mirsym) halves
+for _p in ('C03', 'C04', 'C05', 'C12', 'C16'):
+    PROPS[_p]['mirsym'] = True
+    PROPS[_p]['outside_claim'] = [o for o in PROPS[_p]['outside_claim'] if 'Engine M (when built)' not in o]
+PROPS['C03']['outside_claim'] += ['HeaderResult::parse itself (see C06)', 'v1 inputs longer than LMAX']
+for _p in ('C01', 'C15', 'C18'):
+    PROPS[_p] = {'mirsym': True, 'assumptions': [], 'outside_claim': ['v1 inputs longer than LMAX bytes']}
+PROPS['C01']['outside_claim'] += ['conformance of std\'s Ipv4Addr/Ipv6Addr::from_str to dotted-quad / RFC 4291 text (std grammar is an uninterpreted function with contract facts; its real truth is consulted only when witnesses are replayed)']
+PROPS['C16']['outside_claim'] += ['v1 inputs longer than LMAX bytes']
+
+PROPS['C06'] = {
+    'kani': {'quick': ['c02::c02_accept_iff_wellformed_240', 'c12::c12_v2_error_blame_exact_240'], 'thorough': []},
+    'kani_functions': ['<v2::Header as TryFrom<&[u8]>>::try_from (v2 accepts only inputs starting with the signature; any other non-empty input is the terminal Prefix error)'],
+    'mirsym': True,
+    'assumptions': K_TRUST,
+    'outside_claim': ['the two dedicated parsers themselves (C01, C02): the glue is checked for *every* pair of results they can return', 'v1 inputs longer than LMAX for the "never both" clause'],
+}
+PROPS['C08'] = {'mirsym': True, 'assumptions': [], 'outside_claim': [
+    'std\'s Display for Ipv4Addr / Ipv6Addr / u16 (every `::` shape): taken as contract axioms - output over the address alphabet, 7..15 / 2..39 bytes, from_str(display(a)) == Ok(a); canonical decimal for u16',
+    'v1 inputs longer than LMAX']}
+for _p in ('C09', 'C10', 'C20'):
+    PROPS[_p] = dict(PROPS[_p])
+    PROPS[_p]['mirsym'] = True
+    PROPS[_p]['outside_claim'] = [o for o in PROPS[_p]['outside_claim'] if 'Engine M' not in o] + [
+        'Engine M: call sequences longer than 2 (quick) / 3 (thorough); Vec capacity is not modelled (reserve_capacity is a no-op in the model: its lack of effect rests on Engine K)']
